@@ -9,8 +9,10 @@ mod c06;
 mod c07;
 mod c08;
 mod c17;
+mod c17f;
 pub mod c18;
 mod c19;
+mod c19f;
 mod c20;
 mod c11;
 mod c12;
@@ -27,6 +29,7 @@ pub fn run(engine: &str, toks: Vec<Tok>) -> Vec<Tok> {
         "c03_connect" => c03::connect(toks),
         "c03_v4_sweep" => c03::v4_sweep(toks),
         "c04_eval" => c04::eval(toks),
+        "c04_front" => c04::front(toks),
         "c05_select" => c05::select(toks),
         "c05_history" => c05::history(toks),
         "c05_codec" => c05::codec(toks),
@@ -37,6 +40,9 @@ pub fn run(engine: &str, toks: Vec<Tok>) -> Vec<Tok> {
         "c08_run" => c08::run(toks),
         "c14_session" => c14s::run(toks),
         "c14_establish" => c14s::establish(toks),
+        "c14_front" => c14s::front(toks),
+        "c19_front" => c19f::run(toks),
+        "c17_front" => c17f::run(toks),
         "c20_run" => c20::run(toks),
         "c20_scrub" => c20::scrub(toks),
         "c19_run" => c19::run(toks),
